@@ -52,17 +52,18 @@ def showOpt (r : Option (List Nat)) : String :=
   | some l => showList l
   | none => "!fuel"
 
-def minStamp? (s : String) : Option Int :=
-  if s = "d" then some Gen.lcaDefaultMinStamp else int? s
+/-- `d` = the default of `min_stamp` (generated: `None` = no cut since the C13 fix), else an explicit stamp -/
+def minStamp? (s : String) : Option (Option Int) :=
+  if s = "d" then some Gen.lcaDefaultMinStamp else (int? s).map some
 
 def query (g : Graph) (q : String) : Option String :=
   match q.splitOn ":" with
   | ["L", c1, c2s, m] => do
       let c1 ← nat? c1; let c2s ← natList? c2s; let m ← minStamp? m
-      some (showRes (findLcas g c1 c2s m))
+      some (showRes (findLcas g c1 c2s (cutBelow g m)))
   | ["S", c1, c2s, m] => do
       let c1 ← nat? c1; let c2s ← natList? c2s; let m ← minStamp? m
-      some (showRes (finalFlags g c1 c2s m))
+      some (showRes (finalFlags g c1 c2s (cutBelow g m)))
   | ["F", c1, c2] => do
       let c1 ← nat? c1; let c2 ← nat? c2
       some (showResB (canFastForward g c1 c2))
